@@ -172,7 +172,7 @@ func (d *deriver) rule(name string) *Node {
 
 func (d *deriver) derive(n *Node, depth int, out *[]string) {
 	d.steps++
-	if d.steps > 400 {
+	if d.steps > 120 {
 		return
 	}
 	switch n.Kind {
@@ -214,7 +214,7 @@ func (d *deriver) derive(n *Node, depth int, out *[]string) {
 		*out = append(*out, glue)
 		d.derive(n.Kids[1], depth+1, out)
 	case "ref":
-		if depth < 12 {
+		if depth < 8 {
 			if b := d.rule(n.S); b != nil {
 				d.derive(b, depth+1, out)
 			}
@@ -222,12 +222,17 @@ func (d *deriver) derive(n *Node, depth int, out *[]string) {
 	}
 }
 
-// GenInput derives a sentence of the grammar and (often) damages it slightly.
-func GenInput(r *vh.Rand, g *Grammar) string {
+// GenInput derives a sentence of the grammar and (often) damages it slightly; at most
+// maxWords words (matching has no memoisation: recursive grammars take time exponential in
+// the input length, in the real code and in the model alike).
+func GenInput(r *vh.Rand, g *Grammar, maxWords int) string {
 	var ws []string
 	if r.Chance(88) {
 		d := &deriver{r: r, g: g}
 		d.derive(g.Rules[0].Body, 0, &ws)
+		if len(ws) > maxWords {
+			ws = ws[:maxWords]
+		}
 	} else {
 		for k := r.Intn(8); k > 0; k-- {
 			ws = append(ws, r.Pick(soup))
